@@ -54,6 +54,12 @@ CHECKS = {
         design="3/C14",
         technique="Lean 4 proof (list induction, loop invariant, monoid algebra) + exact model/code correspondence incl. object identities + numeric unitary oracle",
     ),
+    "C18": dict(
+        text="Lean 4 theorems over all expression lists, all assignments and all nested argument types about the model of qlasskit/bqm.py + merge_expressions: the pyqubo tree built by SympyToBQM.visit (n-ary And/Xor folded pairwise, binary Or, Not, constants) has the indicator polynomial of the expression; merge_expressions (any truth-table preserving simplifier) keeps the function; hence energy = number of true return bits, minimum-energy assignments = assignments with the fewest true return bits, zeros at energy 0, tree variables = symbols of the merged return expressions (each an argument bit or a declared return name), every bit the function depends on is mentioned, all four formats receive the same tree; decode_samples = C09's interpret on the bits the sample spells. Proved in full for the repaired library and, for the code as it is, under the guard 'no return bit is a bare symbol' (open finding C18-ret-symbol-andconst, Lean witness f(a)=a). Tie: the real to_bqm run against a recording pyqubo stub on programs through the real front end and on synthetic expression lists; tree / exception class / energy table / decoded values compared exactly with the model, the property itself judged on the real tree with an evaluator and oracle that do not use bqm.py.",
+        note="Partial by necessity: pyqubo and dimod are not installed. The meaning of a tree node is the polynomial pyqubo's documentation states (table in harness/pyqubo_stub.py) - an assumption; what real pyqubo does with the tree (compile, to_bqm/to_qubo/to_ising with degree reduction and further auxiliaries, decode_sampleset) is outside both the proofs and the comparison, so 'in every offered format' is only shown as 'the same tree reaches the exporter named by fmt'. sympy's simplify_logic is not modelled (hypothesis of the theorems, checked per case by truth table). Trusted: Lean kernel (axioms audited per run), harness incl. stub and canonicalisers.",
+        design="3/C18",
+        technique="Lean 4 proof (mutual structural induction over BExp / expression lists) + model/code correspondence through a recording pyqubo stub",
+    ),
 }
 
 NOT_YET = {
